@@ -10,9 +10,12 @@ import "github.com/tormoder/fit/internal/types"
 // The 16 slots get pairwise distinguishable definitions: slot k is message
 // vSlotMsgs[k] with one unknown field (number 250) of k+1 bytes, alternating
 // byte order.
-var vSlotMsgs = [16]MesgNum{MesgNumRecord, MesgNumLap, MesgNumSession, MesgNumEvent, MesgNumDeviceInfo, MesgNumLength,
-	MesgNumHr, MesgNumHrv, MesgNumWorkout, MesgNumWorkoutStep, MesgNumZonesTarget, MesgNumSegmentLap,
-	MesgNumUserProfile, MesgNumSport, MesgNumActivity, MesgNumSoftware}
+var vSlotMsgs = [16]MesgNum{MesgNumRecord, MesgNumHrv, MesgNumSession, MesgNumUserProfile, MesgNumDeviceInfo, MesgNumLength,
+	MesgNumHr, MesgNumLap, MesgNumWorkout, MesgNumWorkoutStep, MesgNumZonesTarget, MesgNumSegmentLap,
+	MesgNumEvent, MesgNumSport, MesgNumActivity, MesgNumSoftware}
+
+// (slots 1 and 3, reachable from compressed-timestamp headers, hold messages
+// without a timestamp field: hrv and user_profile)
 
 func vSlotDef(k int) *defmsg {
 	return &defmsg{localMsgType: uint8(k), arch: vArch(k%2 == 1), globalMsgNum: vSlotMsgs[k], fields: 1,
@@ -58,9 +61,9 @@ func vCounts(a *ActivityFile) [16]int {
 		}
 		return 0
 	}
-	return [16]int{len(a.Records), len(a.Laps), len(a.Sessions), len(a.Events), len(a.DeviceInfos), len(a.Lengths),
-		len(a.Hrs), len(a.Hrvs), len(a.Workouts), len(a.WorkoutSteps), len(a.ZoneTargets), len(a.SegmentLaps),
-		n(a.UserProfile != nil), n(a.Sport != nil), n(a.Activity != nil), 0}
+	return [16]int{len(a.Records), len(a.Hrvs), len(a.Sessions), n(a.UserProfile != nil), len(a.DeviceInfos), len(a.Lengths),
+		len(a.Hrs), len(a.Laps), len(a.Workouts), len(a.WorkoutSteps), len(a.ZoneTargets), len(a.SegmentLaps),
+		len(a.Events), n(a.Sport != nil), n(a.Activity != nil), 0}
 }
 
 // H13: one record from a state in which all 16 slots are defined except
@@ -72,6 +75,9 @@ func H13() {
 	var d decoder
 	f, _ := NewFile(FileTypeActivity, NewHeader(V20, true))
 	d.file = f
+	// an arbitrary compressed-timestamp reference (0 = none yet)
+	d.timestamp = vU32()
+	d.lastTimeOffset = int32(d.timestamp & 31)
 	nilSlot := vConcretize(vInt(-1, 15))
 	for k := 0; k < 16; k++ {
 		if k != nilSlot {
@@ -169,5 +175,58 @@ func H13() {
 			}
 		}
 	}
+	vReached("end")
+}
+
+// H13b: two definitions carrying developer fields for two different local
+// types, then data records of both, through the real decodeFileData loop.
+// The second definition must not change how records of the first local type
+// are read (sizes of its developer fields included).
+func H13b() {
+	var d decoder
+	f, _ := NewFile(FileTypeActivity, NewHeader(V20, true))
+	d.file = f
+	A := vConcretize(vInt(0, 15))
+	B := A ^ 1
+	if vBool() {
+		B = A ^ 8
+	}
+	a1, a2, b1 := vConcretize(vInt(1, 4)), vConcretize(vInt(1, 4)), vConcretize(vInt(1, 4))
+	first := vBool() // which of the two definitions comes first
+	defA := []byte{0x60 | byte(A), 0, 0, 20, 0, 1, 3, 1, 0x02, 2, 0, byte(a1), 0, 1, byte(a2), 0}
+	defB := []byte{0x60 | byte(B), 0, 0, 20, 0, 1, 4, 1, 0x02, 1, 5, byte(b1), 0}
+	var s []byte
+	if first {
+		s = append(append(s, defA...), defB...)
+	} else {
+		s = append(append(s, defB...), defA...)
+	}
+	hr1, hr2, cad := vByte(), vByte(), vByte()
+	rec := func(local int, v byte, dev int) {
+		s = append(s, byte(local), v)
+		for i := 0; i < dev; i++ {
+			s = append(s, vByte())
+		}
+	}
+	rec(A, hr1, a1+a2)
+	rec(B, cad, b1)
+	rec(A, hr2, a1+a2)
+	var buf [128]byte
+	copy(buf[:], s)
+	vFeed(&d, buf[:])
+	d.bytes.limit = len(s)
+	err := d.decodeFileData()
+	vAssert(err == nil, "C13.dev.sequence-decodes")
+	vAssert(d.bytes.n == len(s), "C13.dev.consumed")
+	act, _ := f.Activity()
+	ok := len(act.Records) == 3
+	if ok {
+		ok = act.Records[0].HeartRate == hr1 && act.Records[1].Cadence == cad && act.Records[2].HeartRate == hr2 &&
+			act.Records[1].HeartRate == 0xFF && act.Records[0].Cadence == 0xFF
+	}
+	vAssert(ok, "C13.dev.records-read-with-their-own-definition")
+	da, db := d.defmsgs[A], d.defmsgs[B]
+	vAssert(da != nil && len(da.devDataFieldDescs) == 2 && da.devDataFieldDescs[0].size == byte(a1) && da.devDataFieldDescs[1].size == byte(a2), "C13.dev.first-slot-descriptors-kept")
+	vAssert(db != nil && len(db.devDataFieldDescs) == 1 && db.devDataFieldDescs[0].size == byte(b1), "C13.dev.second-slot-descriptors")
 	vReached("end")
 }
